@@ -245,6 +245,14 @@ func c10Run(w *W) {
 		c10Sentence(w, renderTight(ss).src)
 		c10Invalid(w, render(ss).src, true) // the same sentence under a transient fault at every position
 	})
+	for _, n := range []int{1, 2, 3, 9, 10, 11, 17} {
+		if !w.Mine() || w.TimeUp() {
+			continue
+		}
+		for _, src := range repetitionSources(n) {
+			c10Sentence(w, src)
+		}
+	}
 	for _, src := range []string{"a \\\nb\n", "a 'q\nq' \"d\n$v\"\n", "cat <<E <<F <<-G\nx\nE\ny\nF\n\tz\n\tG\n", "a $(b <<E\nx\nE\n) `c d`\n", "a &&\n\n# c\nb\n", "case x in a) ;; esac"} {
 		if w.Mine() {
 			c10Sentence(w, src)
